@@ -277,6 +277,40 @@ def prepare(which: int, x: str) -> str:
     return 'ok'
 
 
+def tag_uri(c: str, which: int) -> str:
+    """unit level, every Unicode scalar value: what prepare_tag / prepare_tag_prefix write for a tag
+    (resp. %TAG prefix) holding the character c is read back by the scanner + parser as the same text
+    (UTF-8 encode -> %XX escapes -> hex parse -> UTF-8 decode, all on the symbolic character)"""
+    em = Emitter(Sink())
+    em.tag_prefixes = Emitter.DEFAULT_TAG_PREFIXES.copy()
+    tag = 't:' + c
+    try:
+        if which == 0:
+            text = em.prepare_tag(tag) + ' x'
+        else:
+            text = '%TAG !e! ' + em.prepare_tag_prefix(tag) + '\n--- !e!x y'
+    except EmitterError:
+        return 'ok'
+    except Exception as e:
+        not_a_finding(e)
+        return fail(P, 'prepare ' + exc_sig(e), which=which)
+    try:
+        evs = list(yaml.parse(text))
+    except yaml.YAMLError as e:
+        return fail(P, 'REPARSE the prepared tag text is rejected (%s)' % type(e).__name__, which=which)
+    except Exception as e:
+        not_a_finding(e)
+        return fail(P, exc_sig(e), which=which)
+    reach()
+    sc = [e for e in evs if isinstance(e, ScalarEvent)]
+    if len(sc) != 1:
+        return fail(P, 'EVENTS', which=which)
+    want = tag if which == 0 else tag + 'x'
+    if sc[0].tag != want:
+        return fail(P, 'TAG with an escaped character is read back differently', which=which)
+    return 'ok'
+
+
 def selftests():
     return [pymodels.selftest_codecs()]
 
@@ -336,6 +370,13 @@ def jobs(tier):
                           budget=200 if q else 1800, exhaust=q,
                           bounds='scalar text of len %d over {a, space, LF, e-acute, "} starting with %r, requested style %r, width %s, mapping value%s' % (
                               FN, FOLD[k], STYLE_REQ[st], '5' if q else '5..7', '' if q else ' / root / sequence item')))
+    for w in range(2):
+        for name, lo, hi in [('ascii', 0, 0x80), ('2byte', 0x80, 0x800), ('3byte', 0x800, 0x10000), ('4byte', 0x10000, 0x110000)]:
+            js.append(Job('tag-uri/%s/%s' % ('tag' if w == 0 else 'prefix', name), tag_uri,
+                          [lambda c, which, _w=w, _lo=lo, _hi=hi: which == _w and len(c) == 1 and _lo <= ord(c) < _hi and not ('\ud800' <= c <= '\udfff')],
+                          budget=250 if q else 900,
+                          bounds='%s holding one character, every Unicode scalar value in U+%04X..U+%04X: prepare + scan + parse round trip' % (
+                              'tag' if w == 0 else '%TAG prefix', lo, hi - 1)))
     js.append(Job('directives', directives, [lambda pi, hi, ver_minor, explicit: 0 <= pi < len(PREFIX_CHARS) and 0 <= hi < len(HANDLE_CHARS) and 0 <= ver_minor <= 2],
                   budget=200 if q else 600, bounds='%%TAG !<h>! t:<p> over %d prefix and %d handle class representatives x %%YAML 1.0-1.2 x explicit' % (len(PREFIX_CHARS), len(HANDLE_CHARS))))
     IN = 4 if q else 5
